@@ -1,4 +1,5 @@
-(* C11 driver: token grammar in checks/C11.py / harness/C11.cpp *)
+(* C11 driver: token grammar in checks/C11.py / harness/C11.cpp
+   scenario ::= [:ri] <all_sep> <ntests> ([:ign] test)*     observation ends with :end <failures> <isFailure> <run> <ignored> <late> *)
 let hexi i = Printf.sprintf "%x" i
 let wout c =
   match next c with
@@ -28,12 +29,19 @@ let test c =
                let i = counted c inj in
                TReal ({ p_pre = a; p_setup = b; p_body = d; p_teardown = e; p_post = f }, i)
   | t -> raise (Bad ("test " ^ t))
+(* a registered test: optional marker :ign in front of the test *)
+let tcase c =
+  match peek c with
+  | Some ":ign" -> ignore (next c); { c_ign = true; c_test = test c }
+  | _ -> { c_ign = false; c_test = test c }
+(* scenario: optional leading flag :ri (run-ignored switch), then <all_sep> <ntests> case* *)
 let scenario ts =
   let c = { rest = ts } in
+  let ri = (match peek c with Some ":ri" -> ignore (next c); true | _ -> false) in
   let all = bool_tok (next c) in
-  let l = counted c test in
+  let l = counted c tcase in
   if not (at_end c) then raise (Bad "trailing tokens");
-  { s_all_sep = all; s_tests = l }
+  { s_all_sep = all; s_run_ign = ri; s_tests = l }
 let pfail = function
   | FExit -> ":x" | FKilled s -> ":k " ^ pn s | FStopped -> ":s" | FFork -> ":fk" | FEintr -> ":wi" | FWait -> ":w"
   | FCheck -> ":ck" | FOther -> ":o"
@@ -44,7 +52,7 @@ let run_line ts =
   let s = scenario ts in
   if not (valid s) then raise (Bad "scenario is not valid (no test, status/signal/exit code out of range)")
   else let o = run s in
-    String.concat " " (List.map pitem o.o_items @ [":end"; pn o.o_total; pbool o.o_failed; pn o.o_run; pbool o.o_late])
+    String.concat " " (List.map pitem o.o_items @ [":end"; pn o.o_total; pbool o.o_failed; pn o.o_run; pn o.o_ign; pbool o.o_late])
 let fail_tok c =
   match next c with
   | ":x" -> FExit | ":k" -> FKilled (n_tok (next c)) | ":s" -> FStopped | ":fk" -> FFork | ":wi" -> FEintr | ":w" -> FWait
@@ -64,5 +72,7 @@ let spec_line ts os =
     | _ -> List.rev acc in
   let its = items [] in
   (match next c with ":end" -> () | t -> raise (Bad ("expected :end, got " ^ t)));
-  let total = n_tok (next c) in let failed = bool_tok (next c) in let run = n_tok (next c) in let late = bool_tok (next c) in
-  spec s { o_items = its; o_total = total; o_failed = failed; o_run = run; o_late = late }
+  let total = n_tok (next c) in let failed = bool_tok (next c) in let run = n_tok (next c) in let ign = n_tok (next c) in
+  let late = bool_tok (next c) in
+  if not (at_end c) then raise (Bad "trailing tokens in the observation");
+  spec s { o_items = its; o_total = total; o_failed = failed; o_run = run; o_ign = ign; o_late = late }
